@@ -397,6 +397,45 @@ func c06quoteEscape(c *core.Check) {
 			handles = true
 		}
 	}
+	// the text of an IDL literal may contain anything but its own delimiter: a line break and the escape \' are legal there
+	// and illegal in the body of a Go "…" string. A byte-copying helper can only treat them specially if it compares
+	// against them; strconv.Quote / %q need no such comparison.
+	quoted := false
+	mentions := map[string]bool{}
+	var helpers []*ast.FuncDecl
+	for _, call := range rules.Calls(fd.Body, true) {
+		fn := rules.Callee(info, call)
+		if fn == nil {
+			continue
+		}
+		if fn.Pkg() != nil && fn.Pkg().Path() == "strconv" && strings.HasPrefix(fn.Name(), "Quote") {
+			quoted = true
+		}
+		if fn.Pkg() == c.Prog.Pkg(golangRel).Types && len(call.Args) == 1 {
+			if hd := c.Prog.FuncDecl(golangRel, fn.Name()); hd != nil && hd.Body != nil {
+				helpers = append(helpers, hd)
+			}
+		}
+	}
+	for _, hd := range helpers {
+		ast.Inspect(hd.Body, func(n ast.Node) bool {
+			if bl, ok := n.(*ast.BasicLit); ok && bl.Kind == token.CHAR {
+				mentions[bl.Value] = true
+			}
+			return true
+		})
+	}
+	var unhandled []string
+	if !quoted {
+		for _, hz := range []struct{ lit, what string }{{`'\n'`, "a line break inside the literal"}, {`'\''`, `the escape \'`}} {
+			if !mentions[hz.lit] {
+				unhandled = append(unhandled, hz.what)
+			}
+		}
+	}
+	c.Decide(len(unhandled) == 0, "literal-text-valid-in-go-string", golangRel+".(Resolver).onStrBin/hazards", c.Prog.Rel(fd.Pos()),
+		"the conversion treats a line break and \\' specially (or quotes with strconv)",
+		fmt.Sprintf("the literal's text is copied into a Go \"…\" string without ever looking for %s: `const string B = \"two<newline>lines\"` or `\"it\\'s\"` is valid IDL, thriftgo exits 0, and the generated file does not parse (newline in string / unknown escape sequence)", strings.Join(unhandled, " or ")))
 	c.Decide(bad == "" && handles, "quote-escape-respects-backslashes", key, c.Prog.Rel(fd.Pos()), "quotes are escaped by a helper that looks at preceding backslashes",
 		"the literal's double quotes are escaped by "+bad+" regardless of a backslash in front of them: the single quoted literal 'a\\\"b' becomes \"a\\\\\"b\", which ends the Go string early — the generated file does not parse")
 }
